@@ -1,0 +1,28 @@
+//go:build verif
+
+package vaxis
+
+import "syscall"
+
+// Verification hooks for property C10 (concurrency, shutdown). Add-only.
+
+// VerifC10SignalKill delivers a kill signal to the input goroutine's select exactly as
+// signal.Notify would (chSigKill has capacity 1); it reports whether the signal was queued.
+func (vx *Vaxis) VerifC10SignalKill() bool {
+	select {
+	case vx.chSigKill <- syscall.SIGTERM:
+		return true
+	default:
+		return false
+	}
+}
+
+// VerifC10SignalWinch delivers a window-change signal to the input goroutine's select.
+func (vx *Vaxis) VerifC10SignalWinch() bool {
+	select {
+	case vx.chSigWinSz <- syscall.SIGWINCH:
+		return true
+	default:
+		return false
+	}
+}
